@@ -22,14 +22,17 @@ def gen_random(rng):
     c = G.gen_case(rng, CFG)
     # interleave queries from outside (explicit loop argument, loop stopped) and from callbacks
     acts = []
+    nspawned = 0
     for a in c["acts"]:
         acts.append(a)
+        if a[0] == "spawn":
+            nspawned += 1
         r = rng.random()
         if r < 0.35:
             acts.append(["do", ["query"]])
         elif r < 0.45:
             acts.append(["do", ["callsoonquery"]])
-        elif r < 0.52:
+        elif r < 0.52 and nspawned >= 2:
             acts.append(["do", ["callsooncancel", rng.randrange(2)]])
     c["acts"] = acts
     return c
